@@ -39,10 +39,10 @@ type tokVec struct {
 
 type c17Case struct {
 	Doc  string   `json:"doc"`
-	Toks []string `json:"toks"`           // lifted tokens in order
-	Cls  []string `json:"cls"`            // token classes
-	W    []int    `json:"w"`              // depth,index,iskey triples
-	Ops  []string `json:"ops,omitempty"`  // trace histories
+	Toks []string `json:"toks"`          // lifted tokens in order
+	Cls  []string `json:"cls"`           // token classes
+	W    []int    `json:"w"`             // depth,index,iskey triples
+	Ops  []string `json:"ops,omitempty"` // trace histories
 }
 
 var strVariants = []string{`"a"`, `""`, `"k\n"`, `"é😀"`, "\"é\"", `"a\"b\\"`, `"</x>&"`,
